@@ -764,7 +764,7 @@ def check_c08(res):
         # may report out-of-memory, but a literal holding an equal pair must never be ACCEPTED.  Every single request
         # k and every "all requests from k on" schedule, through the EDN_C_VERIF allocation hook.
         fdocs = []
-        for (a_, b_) in twins[:2] + twins[7:10] + twins[14:15]:
+        for (a_, b_) in twins[:2] + twins[7:10] + twins[14:15] + [t_ for t_ in twins if b"_" in t_[0]]:
             for n_ in (20, 300):
                 filler = [b"[%d x]" % i for i in range(n_ // 2)] + [b"%d" % i for i in range(n_ // 2)]
                 seq = list(filler); seq.insert(1, a_); seq.insert(n_ // 2 + 3, b_)
